@@ -16,7 +16,7 @@ Record hnode := {
   nphi : string; ntheta : string; (* helicity angles of the helicity child *)
   nLS : option (Z * Z);           (* canonical basis: (L, S) of this node *)
   nH : option string;             (* helicity-coupling symbol, when couplings are used *)
-  ndyn : option string            (* placeholder symbol standing for the assigned lineshape *)
+  ndyn : option expr              (* the assigned lineshape: any expression tree (or a placeholder symbol) *)
 }.
 Record hchain := {
   cC : option string;             (* coefficient symbol, when coefficients are used *)
@@ -28,6 +28,7 @@ Definition hgroup := list (list hchain).
 
 Definition half (z : Z) : expr := Num (z # 2).
 Definition opt_sym (o : option string) : list expr := match o with Some s => [Sym s] | None => [] end.
+Definition opt_expr (o : option expr) : list expr := match o with Some e => [e] | None => [] end.
 Definition opt_num (o : option Q) : list expr := match o with Some q => [Num q] | None => [] end.
 
 (* ---------------- expected expression trees ---------------- *)
@@ -43,7 +44,7 @@ Definition cg_exprs (n : hnode) : list expr :=
        App (HOther "CG") [half (na_s n); half (na_l n); half (nb_s n); half (- nb_l n); half S2; half (na_l n - nb_l n)]]
   end.
 Definition node_expr (n : hnode) : expr :=
-  App HMul (cg_exprs n ++ opt_sym (nH n) ++ [wigner_expr n] ++ opt_sym (ndyn n)).
+  App HMul (cg_exprs n ++ opt_sym (nH n) ++ [wigner_expr n] ++ opt_expr (ndyn n)).
 Definition chain_expr (c : hchain) : expr :=
   App HMul (opt_num (cpref c) ++ opt_sym (cC c) ++ map node_expr (cnodes c)).
 Definition amp_expr (chains : list hchain) : expr := App HAdd (map chain_expr chains).
@@ -61,6 +62,7 @@ Section Sem.
     cfn ρ "WignerD" [hq J; hq M; hq l; Q2C (-1 # 1) * (phi * 1); theta; Q2C (0 # 1)].
   Definition CGf (j1 m1 j2 m2 j3 m3 : C) : C := cfn ρ "CG" [j1; m1; j2; m2; j3; m3].
   Definition osym (o : option string) : C := match o with Some s => csym ρ s | None => 1 end.
+  Definition oexpr (o : option expr) : C := match o with Some e => denC ρ e | None => 1 end.
   Definition onum (o : option Q) : C := match o with Some q => Q2C q | None => 1 end.
   Definition cg_sem (n : hnode) : C :=
     match nLS n with
@@ -71,7 +73,7 @@ Section Sem.
     end.
   Definition node_sem (n : hnode) : C :=
     cg_sem n * (osym (nH n) *
-      (Dconj (nJ n) (nM n) (na_l n - nb_l n) (csym ρ (nphi n)) (csym ρ (ntheta n)) * osym (ndyn n))).
+      (Dconj (nJ n) (nM n) (na_l n - nb_l n) (csym ρ (nphi n)) (csym ρ (ntheta n)) * oexpr (ndyn n))).
   Definition prodC (l : list C) : C := fold_right Cmult 1 l.
   Definition sumC (l : list C) : C := fold_right Cplus 0 l.
   Definition chain_sem (c : hchain) : C :=
